@@ -17,7 +17,10 @@ for ID in $IDS; do
   else
     VERIF_REPO=$WT timeout 1800 ./check $PROP --tier quick > /tmp/seeded-check-$ID.log 2>&1; C=$?   # (a seeded change may make the harness crawl: bounded)
     N=$(grep -c '^VIOLATION' /tmp/seeded-check-$ID.log)
-    if [ $C -eq 1 ]; then echo "$ID: detected by ./check $PROP --tier quick ($N VIOLATION lines)"; else echo "$ID: NOT detected (exit $C)"; RC=1; fi
+    KNOWN=$(python3 -c "import json;print(json.load(open('seeded/$ID/meta.json')).get('verif_status',''))" 2>/dev/null)
+    if [ $C -eq 1 ]; then echo "$ID: detected by ./check $PROP --tier quick ($N VIOLATION lines)";
+    elif [ -n "$KNOWN" ]; then echo "$ID: not detected, as recorded ($KNOWN)";
+    else echo "$ID: NOT detected (exit $C)"; RC=1; fi
     rm -f /tmp/seeded-check-$ID.log
   fi
   git -C /repo worktree remove --force $WT
